@@ -94,10 +94,16 @@ PassErr(fmt, f, p) ==
                                        /\ Visited(fmt, f, Owner(f, j))
        IN IF badQ \/ badT THEN "ReadError" ELSE "none"
 
-DenoteErr(fmt, f) ==
-  LET P == Plan(fmt)
-      bad == {i \in DOMAIN P : PassErr(fmt, f, P[i]) # "none"}
+DenoteErrP(fmt, f, P) ==
+  LET bad == {i \in DOMAIN P : PassErr(fmt, f, P[i]) # "none"}
   IN IF bad = {} THEN "none" ELSE PassErr(fmt, f, P[CHOOSE i \in bad : \A k \in bad : i <= k])
+DenoteErr(fmt, f) == DenoteErrP(fmt, f, Plan(fmt))
+
+\* In the SLHA format GM2CalcInput is the last block read (fill_alpha_from_gm2calcinput after the scale-dependent
+\* blocks), SMINPUTS and MASS the first: the same abstract block FREE, read late.  The denotation is the same; only
+\* which error is met first differs (a missing scale is reported before a bad token in GM2CalcInput is reached).
+PlanLate(fmt) == IF fmt = "slha" THEN <<Plan(fmt)[2], Plan(fmt)[3], Plan(fmt)[4], Plan(fmt)[1]>> ELSE Plan(fmt)
+DenoteErrLate(fmt, f) == DenoteErrP(fmt, f, PlanLate(fmt))
 
 \* ---- rewrite classes of C13 (constant-level functions on files) -----------------------
 InsertAt(f, i, ln) == SubSeq(f, 1, i) \o <<ln>> \o SubSeq(f, i + 1, Len(f))
